@@ -415,6 +415,13 @@ func c07Run(ci interface{}, r *core.Rec) {
 					}
 					c07Try(r, coder, c.Coder, c.D, c.P, orig, parity, missD, missP)
 					n++
+					// the same pair with one spare parity row behind it: when rows {0,e} are singular for these columns
+					// the coder may report that or pick other rows - but a nil error must mean exact data
+					if (e+j)%8 == 0 && e+1 < c.P {
+						missP[e+1] = false
+						c07Try(r, coder, c.Coder, c.D, c.P, orig, parity, missD, missP)
+						n++
+					}
 				}
 			}
 		}
